@@ -71,6 +71,9 @@ def h_remove(params):
         prefix(h, params, used)
         if params.get("pre_read"):
             h.check_reads(h.q(("time", "<", SYM)), None, what="read before removal")
+        if params.get("pre_remove"):  # an earlier rewrite of the file (handle reopened)
+            apply_op(h, ("rm", ("time", "<", SYM)))
+            h.check_contents("contents after the first removal")
         if kind == "rm":
             apply_op(h, ("rm", _untuple(params["q"]), params.get("mfilter")))
         elif kind == "rm_via":
@@ -106,6 +109,24 @@ def h_update(params):
         else:
             apply_op(h, ("upd", _untuple(params["q"]), us, params.get("via")))
         after_checks(h, params, "update")
+
+    run_path(cfg_of(params), body)
+
+
+def h_update2(params):
+    """Two successive updates (the second on a subset): edits of the first must not alias."""
+    us1, us2 = _unlist(params["upd"]), _unlist(params["upd2"])
+
+    def body(h):
+        n = params.get("n", 3)
+        for i in range(n):
+            s = pspec(i, {"field"}, "ooo", "sel")
+            s["tags"] = {} if params.get("tagless", True) else {"k": "a"}
+            apply_op(h, ("ins", s))
+        apply_op(h, ("updall", us1, None))
+        h.check_contents("contents after the first update")
+        apply_op(h, ("upd", _untuple(params["q"]), us2, None))
+        after_checks(h, params, "second update")
 
     run_path(cfg_of(params), body)
 
